@@ -1667,6 +1667,41 @@ fn sel(form: u8, ty: u8, a: i128, b: i128) -> DynSel {
     DynSel { form, ty, a, b }
 }
 
+/// tall and wide roots on which the extremes of the narrow integer types fall INSIDE the axis: a scalar or
+/// range bound of exactly MIN / MIN+1 / -n / MAX of i8, i16 (u8, u16 MAX) must select what Python selects
+fn tall_wide_chains() -> Vec<(usize, usize, Vec<Op>)> {
+    let f = DynSel::full();
+    let t = Op::Transpose;
+    let v = |r: DynSel, c: DynSel| Op::View(r, c);
+    let (i8t, u8t, i16t, u16t) = (0u8, 1u8, 2u8, 3u8);
+    vec![
+        // 200 rows: i8::MIN = -128 is row 72
+        (200, 3, vec![v(sel(0, i8t, -128, 0), f)]),
+        (200, 3, vec![v(sel(0, i8t, -127, 0), f), t]),
+        (200, 3, vec![v(sel(0, i8t, 127, 0), sel(0, i8t, -3, 0))]),
+        (200, 3, vec![v(sel(2, i8t, -128, 0), f), v(sel(0, i8t, -128, 0), f)]),
+        (200, 3, vec![v(sel(4, i8t, -128, -127), f)]),
+        (200, 3, vec![v(sel(5, i8t, 0, -128), sel(0, u8t, 2, 0)), t]),
+        (200, 3, vec![v(sel(0, i16t, -200, 0), f)]),
+        (200, 3, vec![t, v(f, sel(0, i8t, -128, 0))]),
+        (260, 2, vec![v(sel(0, u8t, 255, 0), f)]),
+        // 130 columns: i8::MIN is column 2
+        (3, 130, vec![v(f, sel(0, i8t, -128, 0))]),
+        (3, 130, vec![v(f, sel(1, i8t, -128, -126))]),
+        (3, 130, vec![v(sel(0, i8t, -3, 0), sel(0, i8t, 127, 0))]),
+        (3, 130, vec![t, v(sel(0, i8t, -128, 0), f), t]),
+        (3, 130, vec![v(f, sel(0, i16t, -130, 0))]),
+        // i16::MIN = -32768 is row 5 of 32773 / column 7232 of 40000
+        (32773, 1, vec![v(sel(0, i16t, -32768, 0), f)]),
+        (32773, 1, vec![v(sel(1, i16t, -32768, -32766), f), t]),
+        (32773, 1, vec![v(sel(0, i16t, 32767, 0), f)]),
+        (1, 40000, vec![v(f, sel(0, i16t, -32768, 0))]),
+        (1, 40000, vec![v(f, sel(4, i16t, -32768, -32767))]),
+        (1, 40000, vec![v(f, sel(0, u16t, 39999, 0))]),
+        (1, 40000, vec![v(f, sel(0, u16t, 65535, 0))]),
+    ]
+}
+
 /// white-box corner cases, run first whatever the seed
 fn corner_chains() -> Vec<(usize, usize, Vec<Op>)> {
     let f = DynSel::full();
@@ -2225,6 +2260,11 @@ fn main() {
     let mut rng = Rng::new(cfg.seed);
     for (i, (h, w, ops)) in corner_chains().into_iter().enumerate() {
         ctx.chain(&mut rng, h, w, if i % 4 == 3 { 1 + i % 3 } else { 0 }, [0u8, 1, 2, RGBA_ELEM][i % 4], &ops);
+    }
+    if !std::env::var("VERIF_MIRI").is_ok() {
+        for (i, (h, w, ops)) in tall_wide_chains().into_iter().enumerate() {
+            ctx.chain(&mut rng, h, w, 0, [0u8, 1, 0, RGBA_ELEM, 0, CELL_ELEM][i % 6], &ops);
+        }
     }
     // VERIF_MIRI: the same case list, cut down, for a run under the Miri interpreter (see `miri_support`)
     let under_miri = std::env::var("VERIF_MIRI").is_ok();
